@@ -1,10 +1,13 @@
 """C04 - engine instances are isolated; interleaved queries do not interfere.
 
 A case is a set of per-engine operation histories plus one schedule (a merge of them).  The
-implementation runs it (a) every engine alone on fresh YP objects, (b) interleaved by the schedule at
-generator-step granularity, (c) every engine on its own thread with a tiny switch interval; the model
-(Engine/World.v, evaluated inside Coq) runs the schedule.  Per-engine observation sequences of (a), (b),
-(c) and of the model must all be equal.
+implementation runs it (a) every engine alone in a fresh interpreter (subprocess), (a') back to back in one
+process, (b) interleaved by the schedule at generator-step granularity, (c) on threads (every history on
+THREAD_COPIES threads, THREAD_ROUNDS rounds on fresh instances, tiny switch interval), (d) per engine and slot:
+the history without the generators of the other slots; the model (Engine/World.v, evaluated inside Coq) runs
+the schedule.  Per-engine observation sequences of (a), (a'), (b), every run of (c) and of the model must all be
+equal; the slot observations of (d) must equal those of (b).  (c) is a test: the model and the theorems are at
+generator-step granularity.
 """
 import sys, os, json, threading, subprocess
 from lib import terms
@@ -19,7 +22,8 @@ THEOREMS = ['C04_init_world_inv', 'C04_step_local', 'C04_step_noninterference', 
 RULE = ('2-3 engines, histories of 6-24 operations each over {atom, assert_fact/assertz/asserta (3 API variants), retract/'
         'retractall (4 API variants), register_function (fixed/variadic), load_script_from_string of compiled Prolog '
         '(overwrite and chained; the same text in several engines, and different texts defining the same names), clear, '
-        'start/next/close/drop/drain of query generators in 3 slots}, merged by a random schedule with bursts; every '
+        'start/next/close/drop/drain of query generators in 3 slots, peek at variables between steps}, merged by a random '
+        'schedule with bursts; every '
         'history ends with read-back queries of all predicates. Non-trivial: two engines hold different contents under '
         'one predicate name and at some point of the schedule at least two query generators are suspended on an answer '
         'simultaneously. Distinct by hash of the case.')
@@ -32,10 +36,13 @@ TRUSTED_BASE = [
     'compiled clauses are modelled as (head arguments, list of goals): the translation of Prolog text to Python text is '
     'the business of C01/C11; here the compiler is only used to produce the scripts that are loaded',
     'CPython: dropping the last reference to a generator closes it at once; creation of a query generator runs no code',
-    'thread schedules finer than a generator step are outside the model: run (c) is a test, not a proof (partial)',
+    'thread schedules finer than a generator step are outside the model: run (c) (12 threaded runs of every history per '
+    'case) is a test, not a proof (partial)',
+    'the fresh interpreter of run (a) is a subprocess of the same Python with the same PYTHONPATH',
     'harness: generators, drivers, canonicalisation (harness/props/c04.py), parser of printed observations',
 ]
 ASSUMPTIONS = ['engines do not share Variable objects; simultaneously suspended queries of one engine use disjoint variables',
+               'queries are read-only (clause bodies call facts, rules and =); database-writing goals inside bodies belong to C14',
                'cases in which a match needs a cyclic term (model error code 2) are unspecified and skipped',
                'evaluate_bounded (interpreter-wide recursion limit) is outside the statement']
 CASE_TIMEOUT = 120
